@@ -247,20 +247,21 @@ def r_timestamp_map(chk, P, tier):
     for p_ in Sym(P, fs).paths():
         for t in [c[1] for c in p_.conds] + ([p_.ret] if p_.ret else []):
             for x in walk_terms(t):
-                if x[0] == "call" and isinstance(x[1], str) and x[1].split("::")[-1] in ("as_secs", "subsec_nanos", "duration_since"):
+                if x[0] == "call" and isinstance(x[1], str) and "std::time::" in x[1] and x[1].split("::")[-1] in ("as_secs", "subsec_nanos", "subsec_micros", "subsec_millis", "as_millis", "as_micros", "as_nanos", "duration_since"):
                     roles[pp(x)] = x[1].split("::")[-1]
-    if sorted(set(roles.values())) != ["as_secs", "duration_since", "subsec_nanos"]:
+    if not {"as_secs", "duration_since"} <= set(roles.values()) and not {"duration_since"} <= set(roles.values()):
         chk.assume("MAP.timestamps: From<SystemTime> no longer reads duration_since / as_secs / subsec_nanos: idiom not recognised, conversion undecided")
     else:
         for before in (False, True):
             for secs in (0, 1, 59, 60, 86399, 86400, 4102444800):
-                for ns in (0, 1, 500000000, NS - 1):
+                for ns in (0, 1, 999, 1000, 500000000, 999999001, NS - 1):
                     if before and secs == 0 and ns == 0:
                         continue
                     bind = {}
                     for k, role in roles.items():
                         bind[k] = (("agg", "adt", "std::result::Result", "Err" if before else "Ok", (("opaque", "duration", ()),), 1 if before else 0) if role == "duration_since"
-                                   else (secs if role == "as_secs" else ns))
+                                   else {"as_secs": secs, "subsec_nanos": ns, "subsec_micros": ns // 1000, "subsec_millis": ns // 10**6, "as_millis": secs * 1000 + ns // 10**6,
+                                         "as_micros": secs * 10**6 + ns // 1000, "as_nanos": secs * NS + ns}[role])
                     total = (secs * NS + ns) * (-1 if before else 1)
                     try:
                         got = parts(show(fo.call(fs, [("arg", 1)], bind=bind)))
@@ -287,7 +288,7 @@ def r_timestamp_map(chk, P, tier):
                 return 0        # the constant UNIX_EPOCH as the compiler evaluated it
             return None
         for secs in (-86401, -86400, -61, -60, -1, 0, 1, 59, 86400, 4102444800, ts_min, ts_max):
-            for ns in (0, 1, NS - 1):
+            for ns in (0, 1, NS - 1, NS, NS + 1, 2 * NS - 1):
                 w = want(secs, ns)
                 if w is None:
                     continue
